@@ -123,21 +123,27 @@ def encodeConnack (sp rc : Nat) (ps : Props) : Bs := packet 0x20 (1 + 1 + propsS
 
 def boolN (b : Bool) : Nat := if b then 1 else 0
 
-def encodeConnect (clientId : Bs) (user pass : Option Bs) (keepAlive cleanStart : Nat) (ps : Props) (w : Option Will) : Bs :=
+def connectFlags (user pass : Option Bs) (cleanStart : Nat) (w : Option Will) : Nat :=
   let wr := match w with | some x => x.retain | none => 0
   let wq := match w with | some x => x.qos | none => 0
-  let flags := (((((boolN user.isSome * 2 + boolN pass.isSome) * 2 + wr) * 4 + wq) * 2 + boolN w.isSome) * 2 + cleanStart) * 2
+  (((((boolN user.isSome * 2 + boolN pass.isSome) * 2 + wr) * 4 + wq) * 2 + boolN w.isSome) * 2 + cleanStart) * 2
+
+def connectBody (clientId : Bs) (user pass : Option Bs) (keepAlive cleanStart : Nat) (ps : Props) (w : Option Will) : Bs :=
   let willB := match w with
-    | some x => propsEncode false x.props ++ lenPrefixed x.topic ++ lenPrefixed x.message
+    | some x => propsEncode false x.props ++ (lenPrefixed x.topic ++ lenPrefixed x.message)
     | none => []
+  lenPrefixed [77, 81, 84, 84] ++ ([5] ++ ([connectFlags user pass cleanStart w % 256] ++ (be16 keepAlive ++ (propsEncode false ps ++
+    (lenPrefixed clientId ++ (willB ++ (optLenPrefixed user ++ optLenPrefixed pass)))))))
+
+def connectBodySize (clientId : Bs) (user pass : Option Bs) (ps : Props) (w : Option Will) : Nat :=
   let willS := match w with
     | some x => propsSize false x.props + lenPrefixedSize x.topic + lenPrefixedSize x.message
     | none => 0
-  packet 0x10
-    (lenPrefixedSize [77, 81, 84, 84] + 1 + 1 + 2 + propsSize false ps + lenPrefixedSize clientId + willS
-      + optLenPrefixedSize user + optLenPrefixedSize pass)
-    (lenPrefixed [77, 81, 84, 84] ++ [5] ++ [flags % 256] ++ be16 keepAlive ++ propsEncode false ps ++ lenPrefixed clientId ++ willB
-      ++ optLenPrefixed user ++ optLenPrefixed pass)
+  lenPrefixedSize [77, 81, 84, 84] + 1 + 1 + 2 + propsSize false ps + lenPrefixedSize clientId + willS
+    + optLenPrefixedSize user + optLenPrefixedSize pass
+
+def encodeConnect (clientId : Bs) (user pass : Option Bs) (keepAlive cleanStart : Nat) (ps : Props) (w : Option Will) : Bs :=
+  packet 0x10 (connectBodySize clientId user pass ps w) (connectBody clientId user pass keepAlive cleanStart ps w)
 
 /-- `control_packet::set_dup()`: `byte |= 0b00001000` on the first byte -/
 def setDup : Bs → Bs
